@@ -383,7 +383,11 @@ impl<T: BitRead> PackedRead for T {
         extensible: bool,
     ) -> Result<u64, Error> {
         if extensible && self.read_bit()? {
-            Ok(self.read_normally_small_length()? + std_variants)
+            self.read_normally_small_length()?
+                .checked_add(std_variants)
+                .ok_or_else(|| ErrorKind::ValueExceedsMaxInt.into())
+        } else if std_variants == 0 {
+            Err(ErrorKind::InvalidChoiceIndex(0, std_variants).into())
         } else {
             self.read_non_negative_binary_integer(None, Some(std_variants - 1))
         }
@@ -458,6 +462,14 @@ impl<T: BitWrite> PackedWrite for T {
         value: i64,
     ) -> Result<(), Error> {
         let bytes = value.to_be_bytes();
+        if bit_len == 0 || bit_len as usize > bytes.len() * BYTE_LEN {
+            return Err(ErrorKind::BitLenNotInRange(
+                bit_len,
+                1_u64,
+                (bytes.len() * BYTE_LEN) as u64,
+            )
+            .into());
+        }
         let bits_offset = (bytes.len() * BYTE_LEN) - bit_len as usize;
         self.write_bits_with_offset(&bytes[..], bits_offset)
     }
